@@ -848,12 +848,23 @@ def npv_ghost(ex, st, rate, sq: Seq):
 
 
 def irr_ghost(ex, st, sq: Seq):
-    """npf.irr(values): NaN, or a rate r > -1 with npv(r, values) == 0 (A3)"""
+    """npf.irr(values): NaN, or a rate r > -1 with npv(r, values) == 0 (A3).  One ghost pair per sequence value;
+    sequences that are pointwise equal get equal results (extensionality instance per pair)."""
+    reg = ex.ctx.__dict__.setdefault("irr_calls", [])
+    for (r0, nan0, other) in reg:
+        if other is sq:
+            return NanOr(r0, nan0)
     r = z3.Real(fresh_name("irr"))
     isnan = z3.Bool(fresh_name("irr_nan"))
     npv = npv_ghost(ex, st, r, sq)
-    st.assume(z3.Implies(z3.Not(isnan), z3.And(r > -1, to_real(npv) == 0)))
-    ex.ctx.__dict__.setdefault("irr_calls", []).append((r, isnan, sq))
+    ex.ctx.global_axioms.append(z3.Implies(z3.Not(isnan), z3.And(r > -1, to_real(npv) == 0)))
+    n = to_int(sq.n)
+    for (r0, nan0, other) in reg:
+        j = z3.Int(fresh_name("q"))
+        same = z3.And(n == to_int(other.n),
+                      z3.ForAll([j], z3.Implies(z3.And(j >= 0, j < n), to_real(sq.get(j)) == to_real(other.get(j)))))
+        ex.ctx.global_axioms.append(z3.Implies(same, z3.And(r == r0, isnan == nan0)))
+    reg.append((r, isnan, sq))
     return NanOr(r, isnan)
 
 
@@ -1020,3 +1031,27 @@ def seq_method(ex, recv, name, args, kwargs, st, node):
     if name == "flatten" or name == "ravel":
         return recv
     raise Unsupported(f"sequence method {name} on {sq.kind}")
+
+
+# ------------------------------------------------------------------ repo functions treated as uninterpreted (A3)
+def call_uninterpreted(ex, st, key, args, kwargs, node):
+    """a repository/library function the contract declares uninterpreted: result = uf(scalar args) plus stated facts.
+    Non-scalar arguments (pint quantities, objects) are reduced to their magnitudes / ignored as stated by the spec."""
+    name, facts = ex.ctx.uninterpreted[key]
+    vals = list(args) + [kwargs[k] for k in sorted(kwargs)]
+    targs = []
+    for v in vals:
+        v = py_number(v)
+        if isinstance(v, Quantity):
+            v = v.mag
+        if isinstance(v, (Ref, CellRef, Seq)) or ex.is_seq(v):
+            raise Unsupported(f"uninterpreted function {name} applied to a non-scalar")
+        if isinstance(v, enum.Enum) or v is None or isinstance(v, str):
+            continue
+        targs.append(to_real(v))
+    f = ex.ctx.uf(name, *([z3.RealSort()] * len(targs)), z3.RealSort())
+    t = f(*targs)
+    if facts is not None and not _mentions_bound(t):
+        for fact in facts(targs, t):
+            ex.ctx.global_axioms.append(fact)
+    return t
